@@ -97,7 +97,7 @@ def make (c):
             if env == 'real3':
                 med [1].append (med [0][3] * float (rng.uniform (1.5, 10)))
                 med.append ([float (rng.uniform (2, 80)), float (10 ** rng.uniform (-4, 0)), float (-rng.choice ([0, 1, 5]))])
-        spec = gen.fam_ground (rng, seg_hi = seg_hi, seg_lo = seg_lo, media = med)
+        spec = gen.fam_ground (rng, fam = (str (rng.choice (['slope', 'lean', 'slope'])) if rng.random () < 0.25 else None), seg_hi = seg_hi, seg_lo = seg_lo, media = med)
         if env in ('real2', 'real3', 'radials'):
             spec ['boundary'] = 'circular' if env == 'radials' else str (rng.choice (['linear', 'circular']))
         if env == 'radials':
@@ -131,6 +131,12 @@ def make (c):
         gen.taper_some (np.random.default_rng ([c ['seed'], 11, c ['i']]), spec, 0.2, min_radii = 8.5)
     spec ['band'] = band
     spec ['refine'] = bool (c ['i'] % 8 == 0)
+    # drive levels of microvolts (input powers down to 1e-15 W): the balance is a ratio
+    rl = np.random.default_rng ([c ['seed'], 12, c ['i']])
+    if rl.random () < 0.12:
+        k = float (10 ** rl.uniform (-7.5, -4.5))
+        for s in spec ['src']:
+            s ['v'] = [s ['v'][0] * k, s ['v'][1] * k]
     return gen.clean (spec)
 # end def make
 
